@@ -543,6 +543,26 @@ Definition field_table : list (string * string * lclass) :=
     ("sessionManager", "operationFuncChan", XConn); ("sessionManager", "keyFunc", XConn);
     ("session", "header", XRegistry); ("session", "joinTime", XRegistry); ("session", "activeMsgChan", XRegistry) ].
 
+(* the declared type of every field above (as go/types prints it, package-qualified by package name, without
+   spaces; function types as func/<parameters>/<results>): a field whose NAME the table does not know is
+   recognised as a renamed one when exactly one field of its struct and type is unknown in the tree and
+   exactly one model field of that struct and type is missing from the tree *)
+Definition field_type_table : list (string * string * string) :=
+  [ ("connection", "conn", "*net.TCPConn"); ("connection", "handles", "map[consts.JT808CommandType]Handler");
+    ("connection", "stopOnce", "sync.Once"); ("connection", "stopChan", "chanstruct{}");
+    ("connection", "msgChan", "chan*Message"); ("connection", "activeMsgChan", "chan*ActiveMessage");
+    ("connection", "activeMsgCompleteChan", "chan*Message"); ("connection", "reissuePackChan", "chan*Message");
+    ("connection", "platformSerialNumber", "uint16"); ("connection", "joinFunc", "func/2/2");
+    ("connection", "leaveFunc", "func/1/0"); ("connection", "key", "string"); ("connection", "joined", "bool");
+    ("connection", "filter", "bool"); ("connection", "terminalEvent", "TerminalEventer");
+    ("packageComplete", "createTime", "time.Time"); ("packageComplete", "updateTime", "time.Time");
+    ("packageComplete", "initHeader", "*jt808.Header");
+    ("packageParse", "historyData", "[]byte"); ("packageParse", "subcontractingRecord", "map[uint16][][]byte");
+    ("packageParse", "timeoutRecord", "map[uint16]*packageComplete");
+    ("session", "header", "*jt808.Header"); ("session", "joinTime", "time.Time");
+    ("session", "activeMsgChan", "chan<-*ActiveMessage");
+    ("sessionManager", "operationFuncChan", "chansessionOperationFunc"); ("sessionManager", "keyFunc", "func/1/2") ].
+
 (* `go f()` statements: who may start whom *)
 Definition spawn_table : list (gclass * gclass) :=
   [ (GMain, GMain); (GMain, GMgr); (GMain, GReader); (GMain, GWriter); (GWriter, GTimer) ].
@@ -691,11 +711,15 @@ Definition root_table_n : list (list N * gclass) :=
 Definition cap_table_n : list (gclass * list N * bool) :=
   Eval vm_compute in map (fun p => (fst (fst p), nm (snd (fst p)), snd p)) cap_table.
 
+Definition field_type_table_n : list (list N * list N * list N) :=
+  Eval vm_compute in map (fun p => (nm (fst (fst p)), nm (snd (fst p)), nm (snd p))) field_type_table.
+
 Inductive ckind := CKChan | CKBasic | CKRef.
 
 Inductive ekind := KCall | KSpawn | KSendLit.
 Record gedge := { e_kind : ekind; e_from : list N; e_to : list N }.
 Record gsite := { s_fun : list N; s_type : list N; s_field : list N; s_write : bool }.
+Record gdecl := { d_struct : list N; d_field : list N; d_type : list N }.
 Record gcap := { c_fun : list N; c_kind : ckind; c_type : list N; c_write : bool; c_imm : bool }.
 
 Definition cmap := list (list N * list gclass).
@@ -713,9 +737,27 @@ Fixpoint cm_add (f : list N) (g : gclass) (m : cmap) : cmap :=
 
 Definition cm_add_all (f : list N) (gs : list gclass) (m : cmap) : cmap := fold_left (fun acc g => cm_add f g acc) gs m.
 
-(* one round: every call edge hands the caller's classes to the callee *)
+(* the class a goroutine started by class g must have, when the model allows exactly one *)
+Definition spawn_target (g : gclass) : option gclass :=
+  match filter (fun p => gclass_eqb (fst p) g) spawn_table with
+  | [(_, b)] => Some b
+  | _ => None
+  end.
+
+(* one round: every call edge hands the caller's classes to the callee; a `go` whose target is not a root of the
+   table (the `go func` moved into a new function) gives the target the one class its starter may start - the
+   new goroutine is then judged, site by site and capture by capture, as a goroutine of that class *)
 Definition cm_round (es : list gedge) (m : cmap) : cmap :=
-  fold_left (fun acc e => match e_kind e with KCall => cm_add_all (e_to e) (cm_get (e_from e) acc) acc | _ => acc end) es m.
+  fold_left (fun acc e =>
+    match e_kind e with
+    | KCall => cm_add_all (e_to e) (cm_get (e_from e) acc) acc
+    | KSpawn =>
+        match lookup_fun codes_eqb (e_to e) root_table_n, cm_get (e_from e) acc with
+        | None, [g] => match spawn_target g with Some b => cm_add (e_to e) b acc | None => acc end
+        | _, _ => acc
+        end
+    | KSendLit => acc
+    end) es m.
 
 Fixpoint cm_iter (n : nat) (es : list gedge) (m : cmap) : cmap :=
   match n with O => m | S k => cm_iter k es (cm_round es m) end.
@@ -731,10 +773,33 @@ Inductive problem :=
 | PSpawn (e : gedge)                (* go / closure sent on a channel: unknown target or classes not allowed *)
 | PCapture (c : gcap).              (* a closure running in another goroutine captures a variable the tables do not allow *)
 
-Definition check_site (m : cmap) (s : gsite) : list problem :=
+Definition declared (ds : list gdecl) (st fld : list N) : bool :=
+  existsb (fun d => codes_eqb (d_struct d) st && codes_eqb (d_field d) fld) ds.
+
+(* the location class of field st.fld of the current tree: by name, or - the name being unknown - as the one
+   model field of the same struct and declared type that the tree no longer has (a rename); ambiguous = none *)
+Definition resolve_field (ds : list gdecl) (st fld : list N) : option lclass :=
+  match lookup_field codes_eqb st fld field_table_n with
+  | Some x => Some x
+  | None =>
+      match find (fun d => codes_eqb (d_struct d) st && codes_eqb (d_field d) fld) ds with
+      | None => None
+      | Some d =>
+          let unknown := filter (fun d' => codes_eqb (d_struct d') st && codes_eqb (d_type d') (d_type d) &&
+                                           match lookup_field codes_eqb st (d_field d') field_table_n with None => true | Some _ => false end) ds in
+          let missing := filter (fun p => match p with (s', f', t') =>
+                                           codes_eqb s' st && codes_eqb t' (d_type d) && negb (declared ds s' f') end) field_type_table_n in
+          match unknown, missing with
+          | [_], [(s', f', _)] => lookup_field codes_eqb s' f' field_table_n
+          | _, _ => None
+          end
+      end
+  end.
+
+Definition check_site (ds : list gdecl) (m : cmap) (s : gsite) : list problem :=
   match cm_get (s_fun s) m with
   | [] => [PSiteNoClass s]
-  | [g] => match lookup_field codes_eqb (s_type s) (s_field s) field_table_n with
+  | [g] => match resolve_field ds (s_type s) (s_field s) with
            | None => [PSiteUnknownField s]
            | Some x => if performs g x (s_write s) then [] else [PSiteNotPerformed s]
            end
@@ -745,8 +810,8 @@ Definition check_edge (m : cmap) (e : gedge) : list problem :=
   match e_kind e with
   | KCall => []
   | KSpawn =>
-      match lookup_fun codes_eqb (e_to e) root_table_n, cm_get (e_from e) m with
-      | Some b, (_ :: _) as froms =>
+      match cm_get (e_to e) m, cm_get (e_from e) m with
+      | [b], (_ :: _) as froms =>
           if forallb (fun a => existsb (fun p => gclass_eqb (fst p) a && gclass_eqb (snd p) b) spawn_table) froms
           then [] else [PSpawn e]
       | _, _ => [PSpawn e]
@@ -755,10 +820,9 @@ Definition check_edge (m : cmap) (e : gedge) : list problem :=
       match lookup_fun codes_eqb (e_to e) root_table_n with Some _ => [] | None => [PSpawn e] end
   end.
 
-Definition check_cap (c : gcap) : list problem :=
-  match lookup_fun codes_eqb (c_fun c) root_table_n with
-  | None => [PCapture c]
-  | Some g =>
+Definition check_cap (m : cmap) (c : gcap) : list problem :=
+  match cm_get (c_fun c) m with
+  | [g] =>
       match c_kind c with
       | CKChan => []
       | CKBasic => if negb (c_write c) && c_imm c then [] else [PCapture c]
@@ -766,8 +830,9 @@ Definition check_cap (c : gcap) : list problem :=
           if existsb (fun p => match p with (g', t, w) => gclass_eqb g' g && codes_eqb t (c_type c) && (w || negb (c_write c)) end) cap_table_n
           then [] else [PCapture c]
       end
+  | _ => [PCapture c]
   end.
 
-Definition graph_problems (es : list gedge) (ss : list gsite) (cs : list gcap) : list problem :=
+Definition graph_problems (ds : list gdecl) (es : list gedge) (ss : list gsite) (cs : list gcap) : list problem :=
   let m := classes_of es in
-  flat_map (check_edge m) es ++ flat_map (check_site m) ss ++ flat_map check_cap cs.
+  flat_map (check_edge m) es ++ flat_map (check_site ds m) ss ++ flat_map (check_cap m) cs.
